@@ -620,6 +620,13 @@ func (d *Data) PutSpans(versionID dvid.VersionID, spans []dvid.Span, init bool) 
 	d.Lock()
 	defer d.Unlock()
 
+	// Check all spans before anything stored is touched, so a bad span leaves the ROI as it was.
+	for _, span := range spans {
+		if span[3] < span[2] {
+			return fmt.Errorf("Got weird span %v.  span[3] (X1) < span[2] (X0)", span)
+		}
+	}
+
 	// Delete the old key/values
 	if init {
 		if err := d.Delete(ctx); err != nil {
